@@ -212,25 +212,8 @@ def check(ctx, run):
     rets = [render(g, g.node(n.get("value"))) for n in g.walk() if n["k"] == "ReturnStmt"]
     a = [(l, render(s_, r)) for l, r, n in assignments(s_)]
     run.ob("R4", "the per-test flag is set and read consistently", g.site, len(rets) == 1 and a == [(rets[0], "true")], witness={"get": rets, "set": a})
-    reg = prog.fn("TestRegistry::runAllTests")
-    from .C02 import loop_head_and_body
-    head, body = loop_head_and_body(reg, lambda k: k == "test")
-    okr = head is not None
-    wit = []
-    if okr:
-        for p in enumerate_paths(reg, start_block=body, end_blocks={head["id"]}):
-            v = p.val()
-            nm = [(prog.callee_name(reg, c) or "").split("::")[-1] for c in path_calls(prog, reg, p)]
-            if "runOneTest" in nm and v.get("runInSeperateProcess_") is True:
-                good = nm.count("setRunInSeperateProcess") == 1 and nm.index("setRunInSeperateProcess") < nm.index("runOneTest")
-                if not good:
-                    okr = False
-                    wit.append(p.describe(reg))
-            if "runOneTest" in nm and v.get("runInSeperateProcess_") is None:
-                okr = False
-                wit.append("flag not consulted on: " + p.describe(reg))
-    run.ob("R4", "with -p every test that runs is marked for the separate-process runner first", reg.site, okr, witness=wit or "all iteration paths",
-           what="" if okr else "some tests run in the parent process although separate-process mode is on: a crashing test takes the whole run down")
+    from .C02 import registry_rules
+    registry_rules(prog, run, "R4", "separate")
     for slot, fn_, libc in (("PlatformSpecificFork", "PlatformSpecificForkImplementation", "fork"), ("PlatformSpecificWaitPid", "PlatformSpecificWaitPidImplementation", "waitpid")):
         f = prog.fn(fn_)
         run.analysed(f)
